@@ -21,6 +21,71 @@ type CollisionGroup struct {
 	Ver     int      `json:"cvss"`
 	Path    string   `json:"package_level_location"`
 	Vectors []string `json:"vectors"`
+	// Query: the single query on an already decoded object that writes the location ("" when only
+	// decoding does); the score scenarios of the group run just this query, which keeps their
+	// executions short enough for preemption bound 3 and for the pass over all schedules
+	Query string `json:"query,omitempty"`
+}
+
+// CollisionQueries: the single queries tried by the discovery pass.
+var CollisionQueries = []string{"Score", "BaseScore", "TemporalScore", "Severity", "BaseSeverity", "Encode", "GetError"}
+
+// DecodeFor decodes a candidate; QueryOn runs one query on the result.
+func DecodeFor(ver int, s string) any {
+	if ver == 3 {
+		m, err := v3.NewEnvironmental().Decode(s)
+		if err != nil {
+			return nil
+		}
+		return m
+	}
+	m, err := v2.NewEnvironmental().Decode(s)
+	if err != nil {
+		return nil
+	}
+	return m
+}
+
+func QueryOn(o any, q string) string {
+	switch m := o.(type) {
+	case *v3.Environmental:
+		switch q {
+		case "Score":
+			return fmt.Sprint(Z(m.Score()))
+		case "BaseScore":
+			return fmt.Sprint(Z(m.BaseMetrics().Score()))
+		case "TemporalScore":
+			return fmt.Sprint(Z(m.TemporalMetrics().Score()))
+		case "Severity":
+			return fmt.Sprint(m.Severity())
+		case "BaseSeverity":
+			return fmt.Sprint(m.BaseMetrics().Severity())
+		case "Encode":
+			e, err := m.Encode()
+			return fmt.Sprint(e, err)
+		case "GetError":
+			return fmt.Sprint(m.GetError())
+		}
+	case *v2.Environmental:
+		switch q {
+		case "Score":
+			return fmt.Sprint(Z(m.Score()))
+		case "BaseScore":
+			return fmt.Sprint(Z(m.Base.Score()))
+		case "TemporalScore":
+			return fmt.Sprint(Z(m.Temporal.Score()))
+		case "Severity":
+			return fmt.Sprint(m.Severity())
+		case "BaseSeverity":
+			return fmt.Sprint(m.Base.Severity())
+		case "Encode":
+			e, err := m.Encode()
+			return fmt.Sprint(e, err)
+		case "GetError":
+			return fmt.Sprint(m.GetError())
+		}
+	}
+	return "nil"
 }
 
 var collisionScenarios []Scenario
@@ -81,7 +146,15 @@ func LoadCollisions(gs []CollisionGroup) {
 			}
 			vec := vec
 			n1 := fmt.Sprintf("collision group %d (%s): Score() and Severity() of every view of an object decoded before from %s", gi, g.Path, vec)
-			Ops = append(Ops, Op{Name: n1, Make: func(e *Env, slot int) func() string { return scoreOf(g.Ver, vec) }})
+			mk := func(e *Env, slot int) func() string { return scoreOf(g.Ver, vec) }
+			if g.Query != "" {
+				n1 = fmt.Sprintf("collision group %d (%s): the query %s on an object decoded before from %s", gi, g.Path, g.Query, vec)
+				mk = func(e *Env, slot int) func() string {
+					o := DecodeFor(g.Ver, vec)
+					return func() string { return QueryOn(o, g.Query) }
+				}
+			}
+			Ops = append(Ops, Op{Name: n1, Make: mk})
 			bulkNames[n1] = true
 			scoreOps = append(scoreOps, len(Ops)-1)
 			n2 := fmt.Sprintf("collision group %d (%s): decode, score and encode %s", gi, g.Path, vec)
